@@ -463,9 +463,18 @@ void op_slice_set(Ctx& c, const Op& op) {
             const int cnt_src = int(std::max<int64_t>(rel_len(cnt, int(op.iarg(10)) - 1), 0));
             const int sa = int(uint64_t(op.iarg(4)) % uint64_t(std::max(1, x.size() - (cnt - 1) * ma)));
             const int sb = int(uint64_t(op.iarg(6)) % uint64_t(std::max(1, y.size() - (cnt_src > 0 ? (cnt_src - 1) * mb : 0))));
-            const bool neg = (op.iarg(7) % 4 == 0);   // negative stride on the destination
-            if (neg) {
-                x.slice(sa + (cnt - 1) * ma, std::max(sa - 1, 0) + (sa == 0 ? 0 : 0), -ma) = y.slice(sb, std::min(sb + cnt_src * mb, y.size()), mb);
+            const bool neg = (op.iarg(7) % 4 == 0);       // negative stride on the destination
+            const bool neg_src = (op.iarg(7) % 3 == 0);   // ... on the source (both negative: a reversed block copied onto a reversed block)
+            // a reversed slice of cnt elements with stride m starting at the top element: slice(top, top - cnt*m clipped to 0, -m)
+            auto dst_lo = [&](int top, int c2, int m) { return std::max(top - c2 * m, 0); };
+            if (neg && neg_src && cnt_src > 0) {
+                const int tops = sb + (cnt_src - 1) * mb;
+                x.slice(sa + (cnt - 1) * ma, dst_lo(sa + (cnt - 1) * ma, cnt, ma), -ma) = y.slice(tops, dst_lo(tops, cnt_src, mb), -mb);
+            } else if (neg) {
+                x.slice(sa + (cnt - 1) * ma, dst_lo(sa + (cnt - 1) * ma, cnt, ma), -ma) = y.slice(sb, std::min(sb + cnt_src * mb, y.size()), mb);
+            } else if (neg_src && cnt_src > 0) {
+                const int tops = sb + (cnt_src - 1) * mb;
+                x.slice(sa, std::min(sa + cnt * ma, x.size()), ma) = y.slice(tops, dst_lo(tops, cnt_src, mb), -mb);
             } else {
                 x.slice(sa, std::min(sa + cnt * ma, x.size()), ma) = y.slice(sb, std::min(sb + cnt_src * mb, y.size()), mb);
             }
@@ -1531,6 +1540,9 @@ Plan gen(uint64_t seed, const std::string& tier) {
             }
         }
         pl.ops.push_back(gen_op(r, *d, misuse && d->misuse_capable));
+        if (misuse && d->misuse_capable && r.chance(0.25)) {
+            pl.ops.push_back(pl.ops.back());   // the same (possibly rejected) call once more, as a retry loop would issue it
+        }
         // follow a constructor with a use of the object
         if (std::string(d->name) == "mkplan") {
             pl.ops.push_back(gen_op(r, *find_op("solve"), (i == misuse_at) || r.chance(0.5)));
